@@ -275,4 +275,74 @@ theorem Interleave.perm {α : Type} {parts : List (List α)} {ys : List α} (h :
   | take j a rest hj _ ih =>
     exact (List.Perm.cons a ih).trans (perm_flatten_set _ j a rest hj).symm
 
+/-! ## helpers for the shard theorems -/
+
+theorem sel_parts {X : Type} (sel : E → List X) (f : List E → List E) (parts : List (List E)) :
+    ((parts.map fun part => (f part).map sel).map List.flatten).flatten
+      = ((parts.flatMap f).map sel).flatten := by
+  induction parts with
+  | nil => rfl
+  | cons p parts ih =>
+    simp only [List.map_cons, List.flatten_cons, List.flatMap_cons, List.map_append,
+      List.flatten_append, ih]
+
+
+/-! ## the row view of operators (re-batching pipelines) -/
+
+section Rows
+variable {ρ : Type} (rows : E → List ρ)
+
+/-- an operator that respects the row view: a row-wise operator acts row by row inside an element
+(vectorised `apply`/`assign`); a re-batcher conserves the rows and their order (C19_rows) -/
+def RowsOK : Op E → Prop
+  | .row f => ∃ fr : ρ → List ρ, ∀ e, (f e).flatMap rows = (rows e).flatMap fr
+  | .rebatch g => ∀ xs, (g xs).flatMap rows = xs.flatMap rows
+
+/-- a chain of such operators acts on the row sequence as one row-wise function -/
+theorem runOps_rows (ops : List (Op E)) (h : ∀ o ∈ ops, RowsOK rows o) :
+    ∃ fr : ρ → List ρ, ∀ xs, (runOps ops xs).flatMap rows = (xs.flatMap rows).flatMap fr := by
+  induction ops with
+  | nil => exact ⟨fun r => [r], fun xs => by simp [runOps_nil]⟩
+  | cons o ops ih =>
+    obtain ⟨g, hg⟩ := ih (fun o' ho' => h o' (List.mem_cons_of_mem _ ho'))
+    have ho := h o List.mem_cons_self
+    cases o with
+    | rebatch r =>
+      refine ⟨g, fun xs => ?_⟩
+      rw [runOps_cons, hg, Op.run, ho xs]
+    | row f =>
+      obtain ⟨fr, hfr⟩ := ho
+      refine ⟨fun r => (fr r).flatMap g, fun xs => ?_⟩
+      rw [runOps_cons, hg, Op.run, List.flatMap_assoc, ← List.flatMap_assoc (g := g)]
+      simp only [hfr, List.flatMap_assoc]
+
+end Rows
+
+/-! ## the library metrics of the driver are lawful -/
+
+/-- the integer count/sum/sum-of-squares metric is lawful and commutative with `Eqv := (=)` -/
+theorem momentsM_lawfulComm : LawfulComm momentsM (· = ·) where
+  refl _ := rfl
+  symm h := h.symm
+  trans h1 h2 := h1.trans h2
+  merge_congr h1 h2 := by rw [h1, h2]
+  result_congr h := by rw [h]
+  empty_eq := rfl
+  hom xs ys := by
+    simp [momentsM, List.sum_append, List.map_append]
+  comm xs ys := by
+    simp only [momentsM, List.length_append, List.sum_append, List.map_append, Prod.mk.injEq]
+    refine ⟨by omega, by omega, by omega⟩
+
+/-- the collecting metric is lawful (not commutative): shards merged in order and the stage runner
+preserve even the order of what it collected -/
+theorem collectM_lawful : Lawful collectM (· = ·) where
+  refl _ := rfl
+  symm h := h.symm
+  trans h1 h2 := h1.trans h2
+  merge_congr h1 h2 := by rw [h1, h2]
+  result_congr h := by rw [h]
+  empty_eq := rfl
+  hom _ _ := rfl
+
 end MlModel.Strategy
